@@ -217,8 +217,11 @@ PROPERTIES["C04"] = {
     "level_note": "Only the escape table / hex decoding and the plain-scalar termination test are decided. Folding, quote doubling and plain-scalar "
                   "scanning (scan_flow_scalar, consume_flow_scalar_non_whitespace_chars, scan_plain_scalar) build heap strings and did not finish under Kani; "
                   "they are outside the claim.",
-    "harnesses": [H("c04_escape_sequences", "parser.scanner", ["Scanner::resolve_flow_scalar_escape_sequence", "char_traits::is_hex", "char_traits::as_hex", "Scanner::skip_n_non_blank"],
-                    "'\\' + any ASCII char 1..126 + up to 8 printable ASCII chars, total length 2..10, arbitrary start mark"),
+    "harnesses": [H("c04_escape_sequences_short", "parser.scanner", ["Scanner::resolve_flow_scalar_escape_sequence", "char_traits::is_hex", "char_traits::as_hex", "Scanner::skip_n_non_blank"],
+                    "backslash + any ASCII char 1..126 + up to 4 printable ASCII chars (named table, x and u escapes), arbitrary start mark"),
+                  H("c04_escape_sequences", "parser.scanner", ["Scanner::resolve_flow_scalar_escape_sequence", "char_traits::is_hex", "char_traits::as_hex", "Scanner::skip_n_non_blank"],
+                    "backslash + any ASCII char 1..126 + up to 8 printable ASCII chars (also U escapes), arbitrary start mark", tiers=T, timeout={"thorough": 3000}),
+
                   H("c10_next_can_be_plain_scalar", "parser.input_str", ["StrInput::next_can_be_plain_scalar", "Input::next_can_be_plain_scalar (default body)"], UTF8 % 4)],
     "assumptions": ["escape text is ASCII"],
     "outside": "line folding, quote doubling, escaped line breaks, plain scalar scanning, non-ASCII pass-through",
@@ -321,7 +324,7 @@ PROPERTIES["C06"] = {
     "level_note": "Damage classes that need scanner functions beyond reach (unterminated quoted scalar, misaligned '-'/'?', flow collection not indented, "
                   "multi-line implicit key, 1024-character key, second root node, content after '...') are outside the claim. " + LM_STUB,
     "prepare": ["gen_parser"],
-    "harnesses": [H("c04_escape_sequences", "parser.scanner", ["Scanner::resolve_flow_scalar_escape_sequence"], "backslash + any ASCII + up to 8 printable chars"),
+    "harnesses": [H("c04_escape_sequences_short", "parser.scanner", ["Scanner::resolve_flow_scalar_escape_sequence"], "backslash + any ASCII + up to 4 printable chars"),
                   H("c12_skip_to_next_token_block_2", "parser.scanner", ["Scanner::skip_to_next_token"], SCAN_UNIT_HARNESSES["c12_skip_to_next_token_block_2"]),
                   DS("c16_docstart_two_versions"), DS("c16_docstart_tag_without_docstart"), DS("c16_docstart_explicit_required_missing"),
                   DS("c16_docstart_directive_then_eof"), DS("c16_docstart_two_tags"),
@@ -363,17 +366,17 @@ PROPERTIES["C18"] = {
                   "at most one more arbitrary BMP character, in each of the 6 encodings, the selected encoding is the one the text is in; inputs of 0-3 "
                   "arbitrary bytes never index out of bounds and inputs shorter than 2 bytes fall back to UTF-8. (2) Termination of decode_loop for every "
                   "input of up to 5 bytes, every trap and EVERY decoder behaviour allowed by the documented decoder contract (nondeterministic contract "
-                  "stub): the loop is left within 2N+3 iterations (unwinding assertion derived from the progress argument) and the error-context slicing "
+                  "stub): the loop is left within 2(4N+4)+1 iterations (unwinding assertion derived from the progress argument) and the error-context slicing "
                   "never panics. A non-termination verdict is confirmed natively by running the real decoders under a watchdog.",
     "level_note": "Level 'other' because the decoder is a contract stub, not the real encoding_rs code (its UTF-16/UTF-8 fast paths did not finish under Kani "
                   "for 4 symbolic bytes); equality of the decoded text with the original is encoding_rs's correctness and is trusted. " + DEC_STUB,
     "harnesses": [H("c18_selects_encoding_used", "saphyr.encoding", ["saphyr::encoding::detect_utf16_endianness", "encoding_rs::Encoding::for_bom", "YamlDecoder::decode (selection lines)"],
                     "first char ASCII 1..127, optional second char any BMP scalar except NUL/BOM, 6 encodings"),
                   H("c18_detect_short_inputs", "saphyr.encoding", ["saphyr::encoding::detect_utf16_endianness"], "every input of 0..3 arbitrary bytes"),
-                  H("c18_decode_loop_terminates_3", "saphyr.encoding", ["saphyr::encoding::decode_loop"], "inputs 0..3 bytes x 5 traps x every contract-conforming decoder behaviour; <= 9 iterations",
-                    stubs=[DEC_STUB, "alloc::fmt::format -> empty string"], nonterm_loop="decode_loop", native_probe="c18_native_hang_probe"),
-                  H("c18_decode_loop_terminates_5", "saphyr.encoding", ["saphyr::encoding::decode_loop"], "inputs 0..5 bytes x 5 traps x every contract-conforming decoder behaviour; <= 13 iterations",
-                    stubs=[DEC_STUB, "alloc::fmt::format -> empty string"], nonterm_loop="decode_loop", native_probe="c18_native_hang_probe", tiers=T)],
+                  H("c18_decode_loop_terminates_2", "saphyr.encoding", ["saphyr::encoding::decode_loop"], "inputs 0..2 bytes x 5 traps x every contract-conforming decoder behaviour; <= 25 iterations",
+                    stubs=[DEC_STUB, "String::reserve -> contract model with least growth on an abstract (len, capacity) pair", "alloc::fmt::format -> empty string"], nonterm_loop="decode_loop", native_probe="c18_native_hang_probe"),
+                  H("c18_decode_loop_terminates_4", "saphyr.encoding", ["saphyr::encoding::decode_loop"], "inputs 0..4 bytes x 5 traps x every contract-conforming decoder behaviour; <= 41 iterations",
+                    stubs=[DEC_STUB, "String::reserve -> contract model with least growth on an abstract (len, capacity) pair", "alloc::fmt::format -> empty string"], nonterm_loop="decode_loop", native_probe="c18_native_hang_probe", tiers=T)],
     "assumptions": [DEC_STUB, "NUL does not occur in the text (YAML streams cannot contain it; the detection scheme presupposes it)",
                     "decoded text equals the original for each encoding (encoding_rs correctness trusted)"],
     "outside": "equality of decoded documents; texts whose second character is astral; real decoder code paths",
@@ -389,9 +392,11 @@ PROPERTIES["C19"] = {
     "level_note": "Structural identity of the four node types for whole documents, and deferred-vs-eager equality for mappings, go through LinkedHashMap / the "
                   "loader and are outside the claim (not finishing under Kani). f64::from_str is a contract stub.",
     "harnesses": [H("c19_owned_and_borrowed_resolve_identically", "ext.c19", ["ScalarOwned::parse_from_cow_and_metadata", "Scalar::parse_from_cow_and_metadata", "Scalar::into_owned"], "texts 0..2 over {1 0 x . - ~ t n a e} x 5 styles x 3 tag choices", stubs=[F64_STUB]),
-                  H("c19_parse_representation_yaml", "ext.c19", ["Yaml::parse_representation", "Yaml::parse_representation_recursive", "Yaml::take"], "6 node variants x texts 0..2 x 5 styles x any i64 x {plain, recursive}", stubs=[F64_STUB]),
+                  ] + [H("c19_parse_representation_" + n, "ext.c19", ["Yaml::parse_representation", "Yaml::parse_representation_recursive", "Yaml::take"], "node variant " + n + " x texts 0..2 x 5 styles x any i64", stubs=[F64_STUB])
+                       for n in ["integer", "string", "alias", "badvalue", "null_recursive", "repr", "repr_recursive"]] + [
                   H("c19_parse_representation_sequence", "ext.c19", ["Yaml::parse_representation_recursive"], "sequence [Representation(text 0..2, double-quoted), Value(Integer(any))]", stubs=[F64_STUB]),
-                  H("c19_marked_eq_hash_ignore_span", "ext.c19", ["<MarkedYaml as PartialEq>::eq", "<MarkedYaml as Hash>::hash", "<YamlData as Hash>::hash (derived)"], "4 data variants x arbitrary payloads x arbitrary spans"),
+                  ] + [H("c19_marked_eq_hash_" + n, "ext.c19", ["<MarkedYaml as PartialEq>::eq", "<MarkedYaml as Hash>::hash", "<YamlData as Hash>::hash (derived)"], "data variant " + n + " x arbitrary payloads x arbitrary spans")
+                       for n in ["integer", "boolean", "alias", "string"]] + [
                   H("c08_owned_3", "ext.c08", ["Scalar::into_owned", "ScalarOwned::as_scalar"], "texts 0..3; into_owned/as_scalar round trip", stubs=[F64_STUB], tiers=T)],
     "assumptions": [F64_STUB],
     "outside": "four node types on whole documents; early_parse(false) + resolve == eager for documents with mappings; MarkedYamlOwned/YamlOwned variants of parse_representation (same macro body)",
